@@ -440,7 +440,7 @@ def check(pid, spec, tier, seed, tmp, t0, replay):
         shards = spec["shards"](t, s, search)
         results = []
         with cf.ThreadPoolExecutor(max_workers=min(16, max(1, len(shards)))) as ex:
-            futs = [ex.submit(run_shard, bins, sh, tmp + ("/search" if search else ""), i) for i, sh in enumerate(shards)]
+            futs = [ex.submit(run_shard, bins, sh, tmp + ("/search%d" % s if search else ""), i) for i, sh in enumerate(shards)]
             for f in futs:
                 results.append(f.result())
         return shards, results
